@@ -903,10 +903,10 @@ def inner_seqs(node, top=True):
 
 
 def in_model_scope(g):
-    """every generated graph is inside the model.  (Before the fix of D143, update(keys_to_update) handed the nested node
-    of the executing tensordict to the fresh output of a non-in-place inner sequence; the flat leaf-map model has no
-    container objects and those cases were checked by the oracle only.)"""
-    return True
+    """the flat leaf-map model has no nested CONTAINER objects: a non-in-place inner sequence hands the nested node of its
+    executing tensordict to its fresh output (base.py:update sets the node itself, D143), after which both alias; outside."""
+    uses_nested = any("." in k for l in leaves(g) for k in l["ins"] + l["outs"])
+    return not (uses_nested and any(s["inpl"] in (False, "empty") for s in inner_seqs(g)))
 
 
 def compare(kind, impl, model_results):
@@ -1026,6 +1026,11 @@ def classify(case, label, detail, sig):
         for s in all_seqs(g):
             if s["sel"] is not None and key in spec_written(s) and key not in s["sel"]:
                 return "sequence-select-writes-back-overwritten-inputs"         # D142
+    if label in ("footprint:wrote-non-out-key", "footprint:fresh-output-has-non-out-key") and key and "." in key:
+        if sig.get("sibling"):
+            before = sig.get("_dest_before") or []
+            if not any("." in k and first(k) == first(key) for k in before):
+                return "update-keys_to_update-copies-sibling-leaves"            # D143
     return "none"
 
 
@@ -1117,13 +1122,13 @@ def main(R):
     R.assumptions = [
         "values are terms: every leaf module computes the interned identifier of App(id, out_index, input terms); the interner is a bijection, so equal numbers <=> equal terms",
         "keys have depth <= 2 and no key is a prefix of another; '_' is never an in_key (the constructor warns against it)",
-        "nested container objects are not modelled (identity is compared on leaves)",
+        "model scope: nested container objects are not modelled (cases where a non-in-place inner sequence aliases a nested node are checked by the oracle only)",
         "probabilistic modules are driven with a recording stub distribution: which attribute / method is consulted with which parameters and sample counts; real distributions' numerics are out of scope",
     ]
     R.trusted = ["harness/c14.py: generators, the 12-line Python fold used as spec oracle, canonicalisation (terms, identity classes)",
                  "torch.nn.Module call/hook machinery, CPython"]
     R.extra["stated_not_proved"] = [
-        "C14_module_footprint_full_statement (refuted: D142, a sequence with select_out_keys; proved on the complement)",
+        "C14_module_footprint_full_statement (refuted: D142, a sequence with select_out_keys, and D143, sibling leaves through update(keys_to_update); proved on the complement)",
         "C14_subsequence_sound_full_statement (proved when every module has at least one out key)",
         "C14_forward_slice_executable_full_statement (proved only for in_keys selections covering the sequence's own in_keys; every subset is checked against the code by the harness)"]
     R.step_prove()
